@@ -1,4 +1,299 @@
-/- Driver.C17 — stream `C17` (stub: replaced when the property's model is built). -/
+/-
+  Driver.C17 — stream `C17`.
+
+  payload  := ( holder idx attrIdx doctype tree edit cloneAt )      |   tables
+    holder := detached | plain | indexed
+    idx    := ( b b b b )                 -- indexIDs indexNames indexClassNames indexTagNames (0/1)
+    attrIdx:= ( "name* )                  -- addIndexOnAttribute(name) before the parse
+    doctype:= none | "str
+    tree   := ( e "name ( (k v)* ) sc ( block* ) )          v := none | "str     sc := 0 | 1
+    block  := ( t "str ) | tree
+    edit   := ( side at op arg* )         side := orig | copy | none
+    cloneAt:= nat
+
+  Output (see harness/ahpcheck/props/c17.py, `observe`): the original, its unpickled copy, both after the
+  edit, the re-pickled edited side, the clone — every section rendered with object identities and uids
+  numbered by first sight, so that sharing between original and copy is visible and uuids are not.
+-/
+import AHP.Model.Pickle
 namespace Driver.C17
-def run (_payload : String) : String := "unimplemented"
+open AHP AHP.Sexp AHP.Pk
+
+/-! #### decoding -/
+
+def toAttr : Sexp → Option (Str × Option Str)
+  | .list [k, v] => do
+    let k ← toStr? k
+    let v ← toOptStr? v
+    pure (k, v)
+  | _ => none
+
+def toBool? : Sexp → Option Bool
+  | .atom "0" => some false
+  | .atom "1" => some true
+  | _ => none
+
+/-- builder state: next object id, next uid -/
+structure Gen where
+  oid : Nat
+  uid : Nat
+
+/-- Build an element from its description the way the public API does: construct, then append the
+    blocks in order (children built first).  `none` = a constructor raised / malformed description. -/
+partial def build (owner : Option Nat) : Sexp → StateM Gen (Option DN)
+  | .list [.atom "t", s] => pure ((toStr? s).map DN.text)
+  | .list [.atom "e", name, .list attrs, sc, .list blocks] => do
+    match toStr? name, attrs.mapM toAttr, toBool? sc with
+    | some name, some attrs, some sc =>
+      let g ← get
+      set { g with oid := g.oid + 1, uid := g.uid + 1 }
+      match DN.mk g.oid g.uid name attrs sc owner with
+      | none => pure none
+      | some e0 =>
+        let mut e := e0
+        for b in blocks do
+          match ← build owner b with
+          | none => return none
+          | some b' => e := DN.appendBlock e b'
+        pure (some e)
+    | _, _, _ => pure none
+  | _ => pure none
+
+/-! #### holders -/
+
+inductive Holder where
+  | tree (t : DN)
+  | parser (p : Parser)
+
+def Holder.root : Holder → Option DN
+  | .tree t => some t
+  | .parser p => p.root
+
+def Holder.setRoot (h : Holder) (r : DN) : Holder :=
+  match h with
+  | .tree _ => .tree r
+  | .parser p => .parser { p with root := some r }
+
+def Holder.roundTrip (h : Holder) (n : Nat) : Option (Holder × Nat) :=
+  match h with
+  | .tree t => (Pk.roundTrip id t n).map (fun r => (.tree r.1, r.2))
+  | .parser p => (p.roundTrip n).map (fun r => (.parser r.1, r.2))
+
+/-- the original after it has been pickled (`getAttributesList` inside `__getstate__` synchronised); also what
+    the harness's own snapshot (which calls `getAttributesList` on every element) leaves behind -/
+def Holder.afterPickle : Holder → Holder
+  | .tree t => .tree (materialise t)
+  | .parser p => .parser p.afterGetstate
+
+/-! #### canonical rendering -/
+
+structure Canon where
+  objs : List Nat := []
+  uids : List Nat := []
+
+def seen (xs : List Nat) (x : Nat) : List Nat × Nat :=
+  match xs.findIdx? (· == x) with
+  | some i => (xs, i)
+  | none => (xs ++ [x], xs.length)
+
+def objRef (o : Nat) : StateM Canon Sexp := do
+  let c ← get
+  let (l, i) := seen c.objs o
+  set { c with objs := l }
+  pure (natAtom i)
+
+def uidRef (u : Nat) : StateM Canon Sexp := do
+  let c ← get
+  let (l, i) := seen c.uids u
+  set { c with uids := l }
+  pure (natAtom i)
+
+def optRef : Option Nat → StateM Canon Sexp
+  | none => pure (sym "none")
+  | some o => objRef o
+
+def attrsSx (l : List (Str × Option Str)) : Sexp :=
+  .list (l.map (fun p => .list [strAtom p.1, optStr p.2]))
+
+def blockSx : DN → StateM Canon Sexp
+  | .text s => pure (.list [sym "t", strAtom s])
+  | .el o .. => do pure (.list [sym "e", ← objRef o])
+
+def elSx : DN → StateM Canon Sexp
+  | .text _ => pure (sym "text")
+  | .el o u n a sc blocks ch t p ow => do
+    let o' ← objRef o
+    let u' ← uidRef u
+    let p' ← optRef p
+    let ow' ← optRef ow
+    let ch' ← ch.mapM objRef
+    let bl' ← blocks.mapM blockSx
+    pure (.list [o', u', strAtom n, attrsSx (Attrs.attrsList a), sym (if sc then "1" else "0"), p', ow',
+                 strAtom t, .list ch', .list bl'])
+
+def refsSx (m : List (Str × List Nat)) : StateM Canon Sexp := do
+  let rows ← m.mapM (fun p => do pure (Sexp.list [strAtom p.1, .list (← p.2.mapM objRef)]))
+  pure (.list rows)
+
+def indexSx : Option Index → StateM Canon Sexp
+  | none => pure (sym "noindex")
+  | some ix => do
+    let ids ← ix.idMap.mapM (fun p => do pure (Sexp.list [strAtom p.1, ← objRef p.2]))
+    let nm ← refsSx ix.nameMap
+    let cm ← refsSx ix.classMap
+    let tm ← refsSx ix.tagMap
+    let am ← ix.attrMaps.mapM (fun q => do pure (Sexp.list [strAtom q.1, ← refsSx q.2]))
+    pure (.list [.list ids, nm, cm, tm, .list am])
+
+/-- first number the holder's own objects in document order, then render -/
+def seed (h : Holder) : StateM Canon Unit := do
+  match h with
+  | .parser p => let _ ← objRef p.oid
+  | .tree _ => pure ()
+  match h.root with
+  | some r => for o in DN.oids r do let _ ← objRef o
+  | none => pure ()
+
+def holderSx (h : Holder) : StateM Canon Sexp := do
+  match h with
+  | .tree t =>
+    let els ← (DN.elems t).mapM elSx
+    pure (.list [sym "tree", strAtom (DN.html t), .list els])
+  | .parser p =>
+    let me ← objRef p.oid
+    let ix ← indexSx p.index
+    let els ← match p.root with
+      | some r => (DN.elems r).mapM elSx
+      | none => pure []
+    pure (.list [sym "parser", me, optStr p.html, optStr p.doctype, sym (if p.hasReset then "reset" else "noreset"),
+                 ix, .list els])
+
+def pairSx (tag : String) (a b : Holder) : Sexp :=
+  let act : StateM Canon Sexp := do
+    seed a
+    seed b
+    let sa ← holderSx a
+    let sb ← holderSx b
+    pure (.list [sym tag, sa, sb])
+  (act.run {}).1
+
+/-! #### the case -/
+
+def toEdit : List Sexp → Option Edit
+  | [.atom "appendText", s] => (toStr? s).map .appendText
+  | [.atom "appendChild", s] => (toStr? s).map .appendChild
+  | [.atom "setAttribute", k, v] => do pure (.setAttribute (← toStr? k) (← toStr? v))
+  | [.atom "removeAttribute", k] => (toStr? k).map .removeAttribute
+  | [.atom "addClass", k] => (toStr? k).map .addClass
+  | [.atom "removeChild", i] => (toNat? i).map .removeChild
+  | _ => none
+
+def nthOid (h : Holder) (i : Nat) : Option Nat :=
+  match h.root with
+  | some r => let l := DN.oids r; if l.isEmpty then none else l[i % l.length]?
+  | none => none
+
+/-- `reindex()` (the documented duty after removing elements from an indexed document) -/
+def reindex (h : Holder) : Holder :=
+  match h with
+  | .parser p =>
+    match p.index, p.root with
+    | some ix, some r => .parser { p with index := some (indexDoc ix.ids ix.names ix.classes ix.tags (dkeys ix.attrMaps) r) }
+    | _, _ => h
+  | _ => h
+
+def editHolder (h : Holder) (at_ : Nat) (e : Edit) (oid uid : Nat) : Holder :=
+  match h.root, nthOid h at_ with
+  | some r, some t =>
+    let h' := h.setRoot (applyEdit t oid uid e r)
+    match e with
+    | .removeChild _ => reindex h'
+    | _ => h'
+  | _, _ => h
+
+def cloneSx (orig : DN) (c : DN) : Sexp :=
+  let act : StateM Canon Sexp := do
+    let _ ← objRef orig.oid
+    let _ ← uidRef (uidOf orig)
+    let s ← elSx c
+    pure (.list [sym "clone", s, strAtom (DN.html c),
+                 sym (if isTagEqual orig c then "tageq" else "tagne"), sym (if isTagEqual c orig then "tageq" else "tagne"),
+                 sym (if tagEq orig c then "eq" else "ne")])
+  (act.run {}).1
+
+def mkHolder (holder : String) (idx : List Bool) (attrIdx : List Str) (doctype : Option Str) (tree : Sexp) : Option (Holder × Gen) :=
+  match holder with
+  | "detached" =>
+    match (build none tree).run ⟨1, 0⟩ with
+    | (some t, g) => some (.tree t, g)
+    | _ => none
+  | _ =>
+    match (build (some 0) tree).run ⟨1, 0⟩ with
+    | (some t, g) =>
+      let ix := match holder, idx with
+        | "indexed", [a, b, c, d] => some (indexDoc a b c d attrIdx t)
+        | _, _ => none
+      some (.parser { oid := 0, root := some t, doctype := doctype, hasReset := true, index := ix }, g)
+    | _ => none
+
+def protocols : List Nat := [0, 1, 2, 3, 4, 5]
+
+def runCase (holder : String) (idx : List Bool) (attrIdx : List Str) (doctype : Option Str) (tree : Sexp) (edit : Sexp) (cloneAt : Nat) : Sexp :=
+  match mkHolder holder idx attrIdx doctype tree with
+  | none => .list [sym "build-raised"]
+  | some (x, g) =>
+    match x.roundTrip g.oid with
+    | none => .list [sym "pickle-raised"]
+    | some (y, n1) =>
+      let x1 := x.afterPickle
+      let first := protocols.map (fun _ => pairSx "pair" x1 y)
+      let y := y.afterPickle          -- the snapshot just taken read every attribute list of the copy
+      -- the edit
+      let (xe, ye, sideTag, n2) := match edit with
+        | .list (.atom side :: at_ :: op) =>
+          match toNat? at_, toEdit op with
+          | some i, some e =>
+            if side = "orig" then (editHolder x1 i e n1 g.uid, y, "orig", n1 + 1)
+            else if side = "copy" then (x1, editHolder y i e n1 g.uid, "copy", n1 + 1)
+            else (x1, y, "none", n1)
+          | _, _ => (x1, y, "none", n1)
+        | _ => (x1, y, "none", n1)
+      let afterEdit := pairSx "edited" xe ye
+      -- re-pickle the edited side
+      let xe := xe.afterPickle
+      let ye := ye.afterPickle
+      let src := if sideTag = "orig" then xe else ye
+      let re := match src.roundTrip n2 with
+        | none => .list [sym "repickle-raised"]
+        | some (z, _) => pairSx "repickled" src.afterPickle z
+      -- clone family on the original (three ways, one model)
+      let cl := match x.root with
+        | some r =>
+          let els := DN.elems r
+          if els.isEmpty then .list [sym "noclone"] else
+          match els[cloneAt % els.length]? with
+          | some e =>
+            match clone (n2 + 1000) (g.uid + 1000) e with
+            | some c => let s := cloneSx e c; .list [sym "clones", s, s, s]
+            | none => .list [sym "clone-raised"]
+          | none => .list [sym "noclone"]
+        | none => .list [sym "noclone"]
+      -- the parsers stay usable (`reset` hook present)
+      let reuse := match xe, ye with
+        | .parser a, .parser b => Sexp.list [sym "reuse", sym (if a.hasReset then "ok" else "broken"), sym (if b.hasReset then "ok" else "broken")]
+        | _, _ => .list [sym "reuse", sym "none"]
+      .list ([sym "ok"] ++ first ++ [afterEdit, re, cl, reuse])
+
+def tables : Sexp :=
+  .list [.list (binaryAttrs.map strAtom), .list (boolStrAttrs.map strAtom), .list (voidTags.map strAtom), strAtom invisibleRoot]
+
+def run (payload : String) : String :=
+  match Sexp.parse payload with
+  | some (.atom "tables") => tables.render
+  | some (.list [.atom holder, .list idx, .list attrIdx, doctype, tree, edit, cloneAt]) =>
+    match idx.mapM toBool?, attrIdx.mapM toStr?, toOptStr? doctype, toNat? cloneAt with
+    | some idx, some attrIdx, some doctype, some cloneAt => (runCase holder idx attrIdx doctype tree edit cloneAt).render
+    | _, _, _, _ => "bad-case"
+  | _ => "bad-case"
+
 end Driver.C17
